@@ -1283,9 +1283,10 @@ theorem wfT_root {toks : List TTok} (h : WfT toks = true) : walkOk toks (toks.le
 
 /-- C05 (deserializer level, tape path): for every encoding, every target type and every tape that
 is structurally sound (`WfT`: end links in range, behind their opener and pointing back; object
-fields walkable; mixed containers carry their marker; headers followed by their container -- what
-C06 guarantees for every parsed tape, and what the `tde_wft` correspondence op checks on the real
-tapes of every run) the tape deserializer model never yields the panic / out-of-fuel outcome: no
+fields walkable; mixed containers carry their marker; headers followed by their container -- PROVED for
+every tape the parser model accepts: `wfT_of_parse`, and the unconditional form of this theorem
+`C05_textde_on_parsed_tapes` (Proofs/TextDeParsed.lean); the `tde_wft` correspondence op checks it on the
+real tapes of every run) the tape deserializer model never yields the panic / out-of-fuel outcome: no
 `tokens[i]` out of range, the `debug_assert!` of `FieldsIter::next` is unreachable, all loops end
 within their fuel.  A mismatching type is an error. -/
 theorem C05_textde_tape_no_panic (enc : Enc) (ty : Ty) (toks : List TTok) (hw : WfT toks = true) :
